@@ -25,6 +25,13 @@ static S g_arg;
 #define NOTIFY(s, a, b) (g_arg.v = (a), (s).notify(g_arg))
 #define EXPECT(k, a, b) __vf_expect(k, a, 1)
 #define CB(k, pay) [t = vf::Tracked(pay), kk = k](const S &x) { __vf_log(kk, x.v, &x == &g_arg); }   /* by reference: same object */
+#elif SIG == 4
+// by-value class type whose move constructor marks the source: every observer must receive an intact copy
+struct Sv { int v; bool moved; Sv(int x) : v(x), moved(false) {} Sv(const Sv &o) : v(o.v), moved(o.moved) {} Sv(Sv &&o) noexcept : v(o.v), moved(o.moved) { o.moved = true; o.v = -1; } };
+using Subj = Subject<Sv>; using Sub = Subscription<Sv>;
+#define NOTIFY(s, a, b) (s).notify(Sv(a))
+#define EXPECT(k, a, b) __vf_expect(k, a, 1)
+#define CB(k, pay) [t = vf::Tracked(pay), kk = k](Sv x) { __vf_log(kk, x.v, !x.moved); }
 #else
 using Subj = Subject<int, int>; using Sub = Subscription<int, int>;
 #define NOTIFY(s, a, b) (s).notify(a, b)
